@@ -26,7 +26,7 @@ Example C05_src_example :
   let p2 := PCL (part_cls RModule e (sig [cC;cT;cA;cT]) (sig [cA;cA;cT;cG])) false [] in
   let base := PCL (generic_cls RModule e) true [p1; p2] in
   let m := mk [cG;cG;cT;cC;cT;cC;cA; cC;cT;cA;cT; cC;cC; cA;cA;cT;cG; cT; cG;cA;cG;cA;cC;cC; cA;cT] in
-  match AbstractPart_characterize base (PR KCircularRecord (rotr 4 m) 3 [] None []) with
+  match AbstractPart_characterize base (PR KCircularRecord (rotr 4 m) 3 [] an_empty [] 0) with
   | Ok ent => ent_cls ent = pcl_cls p2
   | Err _ => False
   end.
